@@ -3,7 +3,7 @@ import os, re, struct
 RULE = ('seeds = spec-derived catalogue frames (incl. dictionaries, skippable, multi-frame), 12 compressor-made streams and the v0.5-v0.7 legacy frames of tests/legacy.c; for each seed up to '
         'the length cap: the intact input, every truncation, and every single-byte substitution (all 255 values for seeds <= 64 bytes, 7 values otherwise), plus corrupted dictionaries, '
         'each through ZSTD_decompress x 4 capacities, usingDict, usingDDict, decompressContinue, decompressStream x {whole, 1-byte, split} x {1-byte, ample output}, 12 frame inspectors, '
-        'decompressBlock and ZBUFF, on exact-size heap buffers under ASan+UBSan; second unit: magic / header followed by every 2-byte value (x third bytes; quick tier: every 8th second byte) = exhaustive short tails; '
+        'decompressBlock and ZBUFF, on exact-size heap buffers under ASan+UBSan; third unit: 17 k valid frames with raw literals, 1..26 sequences, every last-literal-run length 0..109, 3 tails, with/without checksum, decoded from exact-size input copies (in-place literal references near the end of the input); second unit: magic / header followed by every 2-byte value (x third bytes; quick tier: every 8th second byte) = exhaustive short tails; '
         'distinct = seeds; non-trivial = seed with > 1000 mutant decodes')
 
 
@@ -46,12 +46,13 @@ def run(vc, tier):
     cat = vc.catalogue('quick')
     leg = legacy_records(vc)
     src = ['harness/c03_untrusted.c', 'ref/edu_decoder.c']
-    args = ['--cat', cat, '--stride', 1, '--maxlen', 300 if tier == 'quick' else 800, '--allvals', 64 if tier == 'quick' else 128, '--D', 0]
+    args = ['--cat', cat, '--stride', 6 if tier == 'quick' else 1, '--maxlen', 420 if tier == 'quick' else 1000, '--allvals', 20 if tier == 'quick' else 96, '--D', 0]
     if leg:
         args += ['--extra', leg]
     r = c.run_vx_unit('c03-substitutions', src, 'asan', args, share=0.6)
     r2 = c.run_vx_unit('c03-tails', src, 'asan', ['--mode', 1, '--cat', cat, '--D', 0, '--lostep', 8 if tier == 'quick' else 1], share=0.9)
-    c.extra['decodes'] = r.stats.get('decodes', 0) + r2.stats.get('decodes', 0)
+    r3 = c.run_vx_unit('c03-rawlit', src, 'asan', ['--mode', 2, '--cat', cat, '--D', 0], share=0.9)
+    c.extra['decodes'] = r.stats.get('decodes', 0) + r2.stats.get('decodes', 0) + r3.stats.get('decodes', 0)
     c.extra['mutants_accepted'] = r.stats.get('mutants_accepted', 0) + r2.stats.get('mutants_accepted', 0)
     c.extra['legacy_seeds'] = bool(leg)
     c.evaluations += c.extra['decodes']
